@@ -24,7 +24,9 @@ def run(rep, tier, seed):
             rule = gen_rule(rnd, pd, randbits(rnd, rnd.randint(1, 16)), kinds=KINDS if j else ('ns', 'vs', 'vsv', 'lsb', 'lsbv', 'map'))
             nr = n_rule(rule)
             has_comp = 'comp' in rule._kinds
-            pls = [npd['payload']] if has_comp else [npd['payload'], '', randbits(rnd, rnd.randint(1, 7)), randbits(rnd, rnd.randint(1, 60))]
+            # (with computed fields: also a payload of another whole number of bytes -- the length fields that are SENT then disagree with
+            # the size of what is rebuilt, and the computed ones follow what is rebuilt, not what the sent ones say)
+            pls = [npd['payload'], randbits(rnd, 8 * rnd.choice([0, 1, 2, 3, 5, 8, 21]))] if has_comp else [npd['payload'], '', randbits(rnd, rnd.randint(1, 7)), randbits(rnd, rnd.randint(1, 60))]
             for pl in pls:
                 npd2 = dict(npd, payload=pl)
                 s = ref_compress(npd2, nr)
